@@ -17,7 +17,10 @@ int xv_threw; uint64_t xv_clock, xv_rmw_old; _Bool xv_cas_ok;
 struct T { uint64_t val; };                          /* an instance of the user's data structure: one word */
 /* read_indicator: the member list `std::atomic<uint64_t> NAME{init};` is read from the header on every run (unit.py -> -DXV_RI_FIELDS=
  * XV_RI_FIELD(name, init)...), so the unit does not depend on how the indicator represents its occupancy (one counter, ingress/egress, ...) */
-#define XV_RI_FIELD(n, i) uint64_t n;
+#ifndef XV_RI_WORD
+#define XV_RI_WORD uint64_t
+#endif
+#define XV_RI_FIELD(n, i) XV_RI_WORD n;
 struct read_indicator { XV_RI_FIELDS };
 #undef XV_RI_FIELD
 static void ri_init(struct read_indicator* p) {           /* default member initialisers */
@@ -26,7 +29,7 @@ static void ri_init(struct read_indicator* p) {           /* default member init
 #undef XV_RI_FIELD
 }
 static void ri_havoc(struct read_indicator* p) {
-#define XV_RI_FIELD(n, i) p->n = nondet_u64();
+#define XV_RI_FIELD(n, i) p->n = (XV_RI_WORD)nondet_u64();
   XV_RI_FIELDS
 #undef XV_RI_FIELD
 }
@@ -110,21 +113,32 @@ enum { R_IDLE = 0, R_GOTV = 1, R_ARRIVED = 2, R_READING = 3 };
 int r_state, r_vi, r_inst; uint64_t r_arrive_clk, r_lri_clk; unsigned r_cycles;
 _Bool env_on; int env_kind;       /* 1: we are a writer (readers move); 2: we are a reader (writers and other readers move) */
 struct left_right* env_self;
-/* Ghost occupancy of the two indicators: arrivals - departures of the environment's readers.  The environment never touches the
- * indicator's members itself: a reader arrives/departs by running the REAL lowered arrive()/depart(), whatever they do. */
-unsigned inside0, inside1; _Bool occupancy_tracked;
+/* Layering.  Writer-side harnesses (wait_for_readers, toggle_version_and_wait, update) see read_indicator::empty() through its
+ * CONTRACT (stub below: "true only if the indicator's occupancy was 0 at some instant of the call"), and the readers of their
+ * environment are pure state machines: nothing there depends on how the indicator represents its occupancy.  The contract is
+ * proved for the real text of empty() in run empty_int (env_real = 1): there the environment's readers arrive and depart by
+ * executing the REAL lowered arrive()/depart() on the indicator's members, whatever those are.
+ * Occupancy of indicator i = number of environment readers currently between their arrive and their depart on i. */
+_Bool env_real;                   /* the environment's readers execute the real arrive()/depart() */
+_Bool occupancy_tracked;
 int lin_watch; _Bool lin_zero;    /* empty() on indicator lin_watch is running; lin_zero: its occupancy was 0 at some instant of the call */
+struct oreader { _Bool on; int vi; unsigned cycles; } o1, o2;
+static _Bool r_on(int i);
+static unsigned occ(int i) { return (r_on(i) ? 1u : 0u) + ((o1.on && o1.vi == i) ? 1u : 0u) + ((o2.on && o2.vi == i) ? 1u : 0u); }
 static void ri_arrive(struct read_indicator* self); static void ri_depart(struct read_indicator* self);
-static void lin_note(void) { if ((lin_watch == 0 && inside0 == 0) || (lin_watch == 1 && inside1 == 0)) lin_zero = 1; }
+static void lin_note(void) { if ((lin_watch == 0 || lin_watch == 1) && occ(lin_watch) == 0) lin_zero = 1; }
+/* the event clock orders the events of the function under test; the environment's accesses do not advance it (keeps it a constant) */
 static void env_arrive(int i) {
-  _Bool b = env_busy; env_busy = 1;
-  if (i == 0) { ri_arrive(&env_self->_read_indicator1); inside0++; } else { ri_arrive(&env_self->_read_indicator2); inside1++; }
-  env_busy = b;
+  if (!env_real) return;
+  _Bool b = env_busy; env_busy = 1; uint64_t c = xv_clock;
+  if (i == 0) ri_arrive(&env_self->_read_indicator1); else ri_arrive(&env_self->_read_indicator2);
+  env_busy = b; xv_clock = c;
 }
 static void env_depart(int i) {
-  _Bool b = env_busy; env_busy = 1;
-  if (i == 0) { ri_depart(&env_self->_read_indicator1); inside0--; } else { ri_depart(&env_self->_read_indicator2); inside1--; }
-  env_busy = b; lin_note();
+  if (!env_real) return;
+  _Bool b = env_busy; env_busy = 1; uint64_t c = xv_clock;
+  if (i == 0) ri_depart(&env_self->_read_indicator1); else ri_depart(&env_self->_read_indicator2);
+  env_busy = b; xv_clock = c;
 }
 static void r_step(void) {
   struct left_right* s = env_self;
@@ -132,13 +146,14 @@ static void r_step(void) {
   else if (r_state == R_GOTV)    { env_arrive(r_vi); r_state = R_ARRIVED; r_arrive_clk = xv_clock; }
   else if (r_state == R_ARRIVED) { r_inst = s->_lr_indicator; r_lri_clk = xv_clock; r_state = R_READING; }
   else                           { env_depart(r_vi); r_state = R_IDLE; r_cycles++; }
+  lin_note();
 }
 /* two more readers (the property's quantifier is 1..3 readers): only their arrive/depart matters to a writer; the version they
  * arrive on is one they read at some earlier time, i.e. either value */
-struct oreader { _Bool on; int vi; unsigned cycles; } o1, o2;
 static void o_step(struct oreader* o) {
   if (!o->on) { o->vi = nondet_bool() ? 1 : 0; env_arrive(o->vi); o->on = 1; }
   else { env_depart(o->vi); o->on = 0; o->cycles++; }
+  lin_note();
 }
 static _Bool r_on(int i) { return (r_state == R_ARRIVED || r_state == R_READING) && r_vi == i; }
 static _Bool r_reading(struct left_right* s, struct T* x);
@@ -184,20 +199,28 @@ static uint64_t xv_rfunc(struct T* x) {   /* the read functor */
 #define RI_depart(x) ri_depart(&(x))
 #define RI_empty(x)  ri_empty_logged(&(x))
 /* every empty() the function under test performs: which indicator, result, clocks; and the linearizability obligation */
-struct emlog { unsigned n; uint64_t first_clk, last_ret_clk; _Bool last_res; };
+struct emlog { unsigned n; uint64_t first_clk, last_call_clk, last_ret_clk; _Bool last_res; };
 struct emlog em0, em1; unsigned em_other;
 #define EM(idx, f) ((idx) == 0 ? em0.f : em1.f)
 static _Bool ri_empty(struct read_indicator* self);
+_Bool use_real_empty;
 static _Bool ri_empty_logged(struct read_indicator* p) {
   int i = p == &mon_self->_read_indicator1 ? 0 : p == &mon_self->_read_indicator2 ? 1 : 2;
   uint64_t c0 = ++xv_clock;
-  lin_watch = i; lin_zero = (i == 0 ? inside0 == 0 : i == 1 ? inside1 == 0 : 1);
-  _Bool r = ri_empty(p);
+  lin_watch = i; lin_zero = (i == 0 || i == 1) ? occ(i) == 0 : 1;
+  _Bool r;
+  if (use_real_empty) {
+    r = ri_empty(p);                            /* the real text; the environment runs before each of its atomic accesses */
+    /* true only if the indicator's occupancy was 0 at some instant between call and return (readers come and go meanwhile) */
+    if (occupancy_tracked && r) XV_OBL("lr.indicator.empty_linearizable", lin_zero);
+  } else {
+    XV_ENV();                                   /* contract stub: readers move while empty() runs ... */
+    r = nondet_bool(); XV_ASSUME(!r || lin_zero);   /* ... and "true" is only possible if the occupancy was 0 at some instant (lr.indicator.empty_linearizable) */
+    fn_steps++;
+  }
   lin_watch = 2;
-  /* true only if the indicator's occupancy was 0 at some instant between call and return (readers come and go meanwhile) */
-  if (occupancy_tracked && r) XV_OBL("lr.indicator.empty_linearizable", lin_zero);
-  if (i == 0) { if (em0.n == 0) em0.first_clk = c0; em0.n++; em0.last_res = r; em0.last_ret_clk = ++xv_clock; }
-  else if (i == 1) { if (em1.n == 0) em1.first_clk = c0; em1.n++; em1.last_res = r; em1.last_ret_clk = ++xv_clock; }
+  if (i == 0) { if (em0.n == 0) em0.first_clk = c0; em0.last_call_clk = c0; em0.n++; em0.last_res = r; em0.last_ret_clk = ++xv_clock; }
+  else if (i == 1) { if (em1.n == 0) em1.first_clk = c0; em1.last_call_clk = c0; em1.n++; em1.last_res = r; em1.last_ret_clk = ++xv_clock; }
   else em_other++;
   return r;
 }
@@ -232,17 +255,25 @@ static void lr_toggle_logged(struct left_right* self) {
 static _Bool r_reading(struct left_right* s, struct T* x) {
   return r_state == R_READING && x == (r_inst == READ_LEFT ? &s->_left : &s->_right);
 }
+#ifndef XV_KR
+#define XV_KR 6
+#define XV_K1 3
+#define XV_K2 3      /* steps per gap: tracked reader, second reader, third reader */
+#endif
 #ifdef XV_INT
 void xv_env(void) {
   if (!env_on || env_busy) return;
   struct left_right* s = env_self;
   if (env_kind == 1) {
-    /* the three readers, interleaved: per round the tracked reader may take two steps and the others one each.  Between two accesses
+    /* the three readers, interleaved: per round the tracked reader takes up to two steps and the others up to one each.  Between two accesses
      * of the writer the words the readers read do not change; the tracked reader's step function satisfies f^7 = f^3 (h_env_closed),
      * so its 0..6 steps are complete; the other two can finish a cycle and start the next (3 steps). */
-    if (nondet_bool()) r_step(); if (nondet_bool()) r_step(); if (nondet_bool()) o_step(&o1); if (nondet_bool()) o_step(&o2);
-    if (nondet_bool()) r_step(); if (nondet_bool()) r_step(); if (nondet_bool()) o_step(&o1); if (nondet_bool()) o_step(&o2);
-    if (nondet_bool()) r_step(); if (nondet_bool()) r_step(); if (nondet_bool()) o_step(&o1); if (nondet_bool()) o_step(&o2);
+    unsigned kr = nondet_uint(), k1 = nondet_uint(), k2 = nondet_uint();     /* how many steps each reader takes in this gap */
+    XV_ASSUME(kr <= XV_KR && k1 <= XV_K1 && k2 <= XV_K2);
+    if (kr > 0) r_step(); if (kr > 1) r_step(); if (k1 > 0) o_step(&o1); if (k2 > 0) o_step(&o2);
+    if (kr > 2) r_step(); if (kr > 3) r_step(); if (k1 > 1) o_step(&o1); if (k2 > 1) o_step(&o2);
+    if (kr > 4) r_step(); if (kr > 5) r_step(); if (k1 > 2) o_step(&o1); if (k2 > 2) o_step(&o2);
+    lin_note();
   } else {
     /* writers (any number of complete or partial updates) and other readers: every shared word may change;
      * guarantee of the writers used: the version index and the indicator stay in {0,1} */
@@ -254,13 +285,22 @@ void xv_env(void) {
 #endif
 /* a quiescent indicator state (its own empty() says so, no interference) with the environment's readers placed on it by real arrive() calls */
 static void place_readers(struct left_right* s) {
-  env_busy = 1;
-  XV_ASSUME(ri_empty(&s->_read_indicator1) && ri_empty(&s->_read_indicator2));
-  env_busy = 0; inside0 = 0; inside1 = 0; occupancy_tracked = 1;
-  if (r_on(0)) env_arrive(0); if (r_on(1)) env_arrive(1);
+  occupancy_tracked = 1;
   o1.on = nondet_bool(); o1.vi = nondet_bool() ? 1 : 0; o2.on = nondet_bool(); o2.vi = nondet_bool() ? 1 : 0; o1.cycles = 0; o2.cycles = 0;
-  if (o1.on) env_arrive(o1.vi); if (o2.on) env_arrive(o2.vi);
-  in_c0 = inside0; in_c1 = inside1;
+  if (env_real) {
+#ifdef XV_BASE_ARBITRARY
+    env_busy = 1;        /* any member values for which the indicator's own empty() (no interference) says "empty" */
+    XV_ASSUME(ri_empty(&s->_read_indicator1) && ri_empty(&s->_read_indicator2));
+    env_busy = 0;
+#else
+    /* the freshly initialised indicator: for SAT the member values then stay sums of a few small constants.  Cycles completed before
+     * the harness starts are produced by an environment step before the call under test */
+    ri_init(&s->_read_indicator1); ri_init(&s->_read_indicator2);
+#endif
+    if (r_on(0)) env_arrive(0); if (r_on(1)) env_arrive(1);
+    if (o1.on) env_arrive(o1.vi); if (o2.on) env_arrive(o2.vi);
+  }
+  in_c0 = occ(0); in_c1 = occ(1);
   xv_clock = 1;
 }
 
@@ -277,7 +317,7 @@ static void havoc_lr(struct left_right* s) {
   uf_n = 0; uf_excl_bad = 0; uf_consumed = 0; uf_use_after_move = 0; rf_n = 0; rf_inst = 2; rf_clk = 0; rf_result = 0; wait_n = 0; tog_n = 0; tog_enter_clk = 0; tog_exit_clk = 0; cur_update = 0;
   in_k = nondet_u64(); in_k2 = nondet_u64(); in_rk = nondet_u64(); in_throw = nondet_uint(); XV_ASSUME(in_throw <= 2);
   in_ver = s->_version_index; in_lri = s->_lr_indicator; in_left = s->_left.val; in_right = s->_right.val;
-  in_c0 = 0; in_c1 = 0; inside0 = 0; inside1 = 0; occupancy_tracked = 0; lin_watch = 2; lin_zero = 0;
+  in_c0 = 0; in_c1 = 0; occupancy_tracked = 0; lin_watch = 2; lin_zero = 0; env_real = 0; use_real_empty = 0;
   { struct emlog z = {0}; em0 = z; em1 = z; em_other = 0; } o1.on = 0; o2.on = 0; o1.vi = 0; o2.vi = 0; o1.cycles = 0; o2.cycles = 0;
   env_self = s; env_on = 0; env_kind = 0;
   r_state = nondet_int(); r_vi = nondet_int(); r_inst = nondet_int(); r_arrive_clk = 0; r_lri_clk = 0; r_cycles = 0;
@@ -338,15 +378,17 @@ void h_indicator(void) {
 
 /* ================= empty() among readers that come and go ================= */
 void h_empty(void) {
-  struct left_right s; havoc_lr(&s); place_readers(&s);
+  struct left_right s; havoc_lr(&s); env_real = 1; use_real_empty = 1; place_readers(&s);
   int idx = nondet_int(); XV_ASSUME(idx == 0 || idx == 1);
-  unsigned before = idx == 0 ? inside0 : inside1; _Bool r_before = r_on(idx);
   env_on = 1; env_kind = 1;
+  XV_ENV();                                          /* some history first: readers complete cycles, arrive, depart */
+  unsigned before = occ(idx); _Bool r_before = r_on(idx); unsigned cyc0 = r_cycles;
   _Bool res = ri_empty_logged(idx == 0 ? &s._read_indicator1 : &s._read_indicator2);     /* lr.indicator.empty_linearizable is stated in there */
   env_on = 0;
   /* the case that matters to a writer: a reader that arrived before the call and is still inside when it returns */
-  XV_OBL("lr.indicator.empty_linearizable", !(res && r_before && r_cycles == 0 && r_on(idx)));
-  XV_OBL("lr.indicator.counts", total_rmws() == 0 && total_stores() == 0 && CM(1 - idx, n_load) == 0);
+  XV_OBL("lr.indicator.empty_linearizable", !(res && r_before && r_cycles == cyc0 && r_on(idx)));
+  XV_OBL("lr.indicator.counts", total_rmws() == 0 && total_stores() == 0 && CM(idx, n_load) >= 1 && CM(1 - idx, n_load) == 0 && m_other.n_load + m_ver.n_load + m_lri.n_load == 0);
+  XV_OBL("lr.sync.seq_cst", CM(idx, all_loads_sc));                                      /* (6) */
 #ifndef XV_INT
   XV_OBL("lr.indicator.counts", res == (before == 0));          /* no interference: empty() <=> occupancy 0 */
 #endif
@@ -354,7 +396,7 @@ void h_empty(void) {
 #ifdef XV_INT
   if (res && before > 0) XV_CANARY("empty_int.true_after_the_last_one_left");
   if (!res && before == 0) XV_CANARY("empty_int.false_because_someone_came");
-  if (r_before && r_cycles == 0 && r_on(idx) && (o1.cycles > 0 || o2.cycles > 0)) XV_CANARY("empty_int.old_reader_stays_others_cycle");
+  if (r_before && r_cycles == cyc0 && r_on(idx) && (o1.cycles > 0 || o2.cycles > 0)) XV_CANARY("empty_int.old_reader_stays_others_cycle");
 #endif
 }
 
@@ -391,9 +433,8 @@ void h_wait(void) {
   env_on = 0;
   XV_OBL("lr.wait.spins_until_empty", EM(idx, n) >= 1 && EM(idx, last_res));                       /* the last thing it did: empty() of that indicator returned true */
   XV_OBL("lr.wait.spins_until_empty", EM(1 - idx, n) == 0 && em_other == 0 && CM(1 - idx, n_load) == 0 && m_other.n_load == 0);
-  XV_OBL("lr.wait.spins_until_empty", !r_on(idx));   /* at the last observation the tracked reader was not on this indicator */
+  XV_OBL("lr.wait.spins_until_empty", !r_on(idx) || r_arrive_clk >= EM(idx, last_call_clk));   /* a reader that is on this indicator now arrived during the last empty() call, not before */
   XV_OBL("lr.wait.spins_until_empty", total_stores() == 0 && total_rmws() == 0 && s._version_index == v0 && s._lr_indicator == l0 && s._left.val == L && s._right.val == R);
-  XV_OBL("lr.sync.seq_cst", CM(idx, all_loads_sc));                                      /* (6) */
   XV_CANARY("wait.returned");
   if (idx == 0) XV_CANARY("wait.idx0"); else XV_CANARY("wait.idx1");
 #ifdef XV_INT
@@ -408,11 +449,10 @@ static void check_toggle(struct left_right* s, int v0) {
   int nx = 1 - v0;
   XV_OBL("lr.toggle.order", m_ver.n_store == 1 && m_ver.store_val == (uint64_t)nx && s->_version_index == nx);     /* flipped exactly once */
   XV_OBL("lr.toggle.order", wait_n == 2 && wait_idx[0] == nx && wait_idx[1] == v0);
-  XV_OBL("lr.toggle.order", EM(nx, n) >= 1 && EM(nx, last_res) && EM(nx, last_ret_clk) < m_ver.store_clk && CM(nx, last_load_clk) < m_ver.store_clk);
-  XV_OBL("lr.toggle.order", EM(v0, n) >= 1 && EM(v0, last_res) && EM(v0, first_clk) > m_ver.store_clk && CM(v0, first_load_clk) > m_ver.store_clk);
+  XV_OBL("lr.toggle.order", EM(nx, n) >= 1 && EM(nx, last_res) && EM(nx, last_ret_clk) < m_ver.store_clk);
+  XV_OBL("lr.toggle.order", EM(v0, n) >= 1 && EM(v0, last_res) && EM(v0, first_clk) > m_ver.store_clk);
   XV_OBL("lr.toggle.order", wait_ret_clk[0] < m_ver.store_clk && m_ver.store_clk < wait_ret_clk[1]);
   XV_OBL("lr.toggle.order", m_c0.n_store + m_c1.n_store + m_c0.n_rmw + m_c1.n_rmw == 0 && m_other.n_store + m_other.n_rmw == 0);
-  XV_OBL("lr.sync.seq_cst", CM(0, all_loads_sc) && CM(1, all_loads_sc));                 /* (6) */
 }
 void h_toggle(void) {
   struct left_right s; havoc_lr(&s); place_readers(&s);
@@ -542,19 +582,19 @@ void h_read(void) {
 void h_read_seq(void) {
   struct left_right s; havoc_lr(&s);
   r_state = nondet_bool() ? R_READING : R_IDLE;      /* up to three other readers are inside, on either indicator */
-  place_readers(&s);
+  env_real = 1; place_readers(&s);
   struct left_right s0 = s; int v = s._version_index;
   uint64_t res = lr_read(&s);
   XV_OBL("lr.read.bracket", xv_threw || res == (sel(&s0, s0._lr_indicator)->val ^ in_rk));
   XV_OBL("lr.read.bracket", s._version_index == s0._version_index && s._lr_indicator == s0._lr_indicator && s._left.val == s0._left.val && s._right.val == s0._right.val
                             && s._writer_mutex.held == s0._writer_mutex.held);
   /* while the functor ran this reader was counted on the indicator of the version it read, and only there; afterwards the occupancy is what it was */
-  XV_OBL("lr.read.bracket", (v == 0 ? !rf_e0 : !rf_e1) && (v == 0 ? rf_e1 == (inside1 == 0) : rf_e0 == (inside0 == 0)));
+  XV_OBL("lr.read.bracket", (v == 0 ? !rf_e0 : !rf_e1) && (v == 0 ? rf_e1 == (occ(1) == 0) : rf_e0 == (occ(0) == 0)));
   env_busy = 1; _Bool e0 = ri_empty(&s._read_indicator1), e1 = ri_empty(&s._read_indicator2); env_busy = 0;
-  XV_OBL("lr.read.bracket", e0 == (inside0 == 0) && e1 == (inside1 == 0) && ri_same(v == 0 ? &s._read_indicator2 : &s._read_indicator1, v == 0 ? &s0._read_indicator2 : &s0._read_indicator1));
+  XV_OBL("lr.read.bracket", e0 == (occ(0) == 0) && e1 == (occ(1) == 0) && ri_same(v == 0 ? &s._read_indicator2 : &s._read_indicator1, v == 0 ? &s0._read_indicator2 : &s0._read_indicator1));
   if (xv_threw) XV_CANARY("read_seq.threw"); else XV_CANARY("read_seq.returned");
-  if (inside0 + inside1 == 3) XV_CANARY("read_seq.three_others_inside");
-  if (inside0 + inside1 == 0) XV_CANARY("read_seq.alone");
+  if (occ(0) + occ(1) == 3) XV_CANARY("read_seq.three_others_inside");
+  if (occ(0) + occ(1) == 0) XV_CANARY("read_seq.alone");
 }
 
 /* ================= constructors ================= */
@@ -583,9 +623,9 @@ void h_env_closed(void) {
   struct left_right s; havoc_lr(&s); place_readers(&s);
   env_self = &s;
   r_step(); r_step(); r_step();
-  int st3 = r_state, vi3 = r_vi, in3 = r_inst; unsigned i03 = inside0, i13 = inside1;
+  int st3 = r_state, vi3 = r_vi, in3 = r_inst; unsigned i03 = occ(0), i13 = occ(1);
   r_step(); r_step(); r_step(); r_step();
-  XV_MODEL_ASSERT("env.closed", r_state == st3 && i03 == inside0 && i13 == inside1
+  XV_MODEL_ASSERT("env.closed", r_state == st3 && i03 == occ(0) && i13 == occ(1)
                                 && (r_state == R_IDLE || r_vi == vi3) && (r_state != R_READING || r_inst == in3));
   XV_CANARY("env_closed.reached");
 }
